@@ -186,6 +186,13 @@ class SLock:
 
     def acquire(self, blocking=True, timeout=-1):
         s = SLock.sched
+        if s is None:
+            # outside a schedule (sequential epilogue of a case): an ordinary, uncontended lock
+            if self.owner is not None:
+                raise RuntimeError("SLock still held by thread %r after the schedule ended" % (self.owner,))
+            self.owner = "epilogue"
+            self.acquisitions += 1
+            return True
         tid = s.current
         if self.owner == tid:
             # re-acquiring a non-reentrant lock one already holds: a self-deadlock
@@ -198,7 +205,8 @@ class SLock:
 
     def release(self):
         self.owner = None
-        SLock.sched.unblock(self)
+        if SLock.sched is not None:
+            SLock.sched.unblock(self)
 
     def locked(self):
         return self.owner is not None
